@@ -18,6 +18,7 @@ type SolverCfg struct {
 	Dir      string   // where .smt2 files are written
 	Parallel int
 	All      bool // run all solvers and compare (thorough)
+	Grace    time.Duration // thorough: how long the other solvers may run on after the first definite answer
 	Seed     int
 	FullOnly bool // only the full, pattern-based encoding (second-chance pass)
 }
@@ -169,6 +170,15 @@ func solveWith(o *Obligation, cfg *SolverCfg, smt, suffix string) {
 				winner = &w
 				if !cfg.All {
 					cancel()
+				} else {
+					// thorough: the other solvers get a bounded grace period to contradict the answer
+					go func() {
+						select {
+						case <-time.After(cfg.Grace):
+							cancel()
+						case <-ctx.Done():
+						}
+					}()
 				}
 			} else if cfg.All && winner.res != a.res {
 				o.Result = "error"
